@@ -143,10 +143,12 @@ def stmt_src(s) -> str:
         pre = "" if s[2] is None else f"EA = {src(s[2])}; "
         return f"{pre}mem_store_u{s[1]}(EA, {src(s[3])});"
     if k == "if":
-        t = "{ " + " ".join(stmt_src(x) for x in s[2]) + " }"
+        bare = s[4] if len(s) > 4 and s[4] else ()     # corpus texts: `if (c) stmt` without braces
+        t = stmt_src(s[2][0]) if "then" in bare else "{ " + " ".join(stmt_src(x) for x in s[2]) + " }"
         if s[3] is None:
             return f"if ({src(s[1])}) {t}"
-        return f"if ({src(s[1])}) {t} else {{ " + " ".join(stmt_src(x) for x in s[3]) + " }"
+        e = stmt_src(s[3][0]) if "else" in bare else "{ " + " ".join(stmt_src(x) for x in s[3]) + " }"
+        return f"if ({src(s[1])}) {t} else {e}"
     if k == "for":
         cond = f"{s[1]} < {src(s[2])}"
         if len(s) > 4 and s[4]:
@@ -403,6 +405,9 @@ def stmt_features(s, out: set):
             stmt_features(x, out)
     elif k == "for":
         expr_features(s[2], out)
+        if len(s) > 6 and s[6]:
+            # a declared counter: the condition compares a typed local
+            expr_features(("cmp", "<", ("var", s[1], tuple(s[6])), s[2]), out, "cond")
         if _has_hybrid(s[2]):
             out.add("call_in_loop_cond")
         if len(s) > 4 and s[4]:
